@@ -133,6 +133,8 @@ fn run_draws<M: nuts_rs::Math, C: Chain<M>>(
                     "mass_matrix_eigvals": stat_vec(&all, "mass_matrix_eigvals"),
                     "num_eigenvalues": stat_i64(&all, "num_eigenvalues"),
                     "flow_updates": after_updates - before_updates,
+                    "evals": logp_log.lock().unwrap().count,
+                    "pos_bits": pos.iter().map(|x| x.to_bits().to_string()).collect::<Vec<_>>(),
                     "pos_finite": pos.iter().all(|x| x.is_finite()),
                     "hook": J::Null,
                 });
@@ -181,10 +183,12 @@ macro_rules! run_global {
                 let sched0 = chain.verif_strategy().verif_schedule_state().to_vec();
                 match catch(|| chain.set_position(&init)) {
                     Err(p) => json!({"id": case["id"], "new_chain":"ok", "set_position": format!("panic: {p}")}),
-                    Ok(Err(e)) => json!({"id": case["id"], "new_chain":"ok", "set_position": format!("err: {e:?}")}),
+                    Ok(Err(e)) => json!({"id": case["id"], "new_chain":"ok", "set_position": format!("err: {e:?}").chars().take(200).collect::<String>(),
+                                        "fatal_hits": log.lock().unwrap().fatal_hits, "evals_init": log.lock().unwrap().count}),
                     Ok(Ok(())) => {
                         let sched1 = chain.verif_strategy().verif_schedule_state().to_vec();
                         let step0 = chain.verif_hamiltonian().step_size();
+                        let evals_init = log.lock().unwrap().count;
                         let draws = run_draws(
                             &mut chain,
                             total,
@@ -196,8 +200,9 @@ macro_rules! run_global {
                             },
                             &log,
                         );
+                        let fatal = log.lock().unwrap().fatal_hits;
                         json!({"id": case["id"], "new_chain":"ok", "set_position":"ok", "sched_new": sched0,
-                               "sched_init": sched1, "step_init": bits(step0), "draws": draws})
+                               "sched_init": sched1, "step_init": bits(step0), "evals_init": evals_init, "fatal_hits": fatal, "draws": draws})
                     }
                 }
             }
@@ -224,11 +229,14 @@ macro_rules! run_flow {
                 }
                 match catch(|| chain.set_position(&init)) {
                     Err(p) => json!({"id": case["id"], "new_chain":"ok", "set_position": format!("panic: {p}")}),
-                    Ok(Err(e)) => json!({"id": case["id"], "new_chain":"ok", "set_position": format!("err: {e:?}")}),
+                    Ok(Err(e)) => json!({"id": case["id"], "new_chain":"ok", "set_position": format!("err: {e:?}").chars().take(200).collect::<String>(),
+                                        "fatal_hits": log.lock().unwrap().fatal_hits, "evals_init": log.lock().unwrap().count}),
                     Ok(Ok(())) => {
                         let step0 = chain.verif_hamiltonian().step_size();
+                        let evals_init = log.lock().unwrap().count;
                         let draws = run_draws(&mut chain, total, |_c| J::Null, &log);
-                        json!({"id": case["id"], "new_chain":"ok", "set_position":"ok",
+                        let fatal = log.lock().unwrap().fatal_hits;
+                        json!({"id": case["id"], "new_chain":"ok", "set_position":"ok", "evals_init": evals_init, "fatal_hits": fatal,
                                "step_init": bits(step0), "draws": draws})
                     }
                 }
@@ -281,6 +289,7 @@ fn run_case(case: &J) -> J {
             s.num_tune = num_tune;
             s.num_draws = num_draws;
             s.step_size = jf(case, "fixed_step", 0.25);
+            s.dynamic_step_size = jb(case, "dynamic_step_size", s.dynamic_step_size);
             apply_euclid_opts!(s, case);
             run_global!(s, case, logp)
         }
